@@ -135,13 +135,19 @@ CHECKS = {
         "assumptions": ["names up to 65535 bytes are storable; longer names must be rejected"],
     },
     "C23": {
-        "pkg": "files", "run": "^TestC23", "level": "exploration",
-        "shards": {"quick": 2, "thorough": 16},
+        "units": [
+            {"pkg": "files", "run": "^TestC23(Main|Faults)$", "shards": {"quick": 2, "thorough": 16}},
+            # n-th-operation I/O faults inside the migration (vfs shim)
+            {"pkg": "files", "run": "^TestC23IOFault", "overlay": "vfs", "tags": ["verifvfs"], "shards": {"quick": 2, "thorough": 16}},
+        ],
+        "level": "exploration",
         "technique": "differential property-based testing: real V1 chronicler histories, the real migrator, then V1 Load against V2 Load through all treasure getters; generated damaged inputs",
         "level_text": "Legacy folders are produced by the real V1 chronicler from generated histories (many chunk files, in-place modifications, real and shadow deletes, all content "
                       "kinds), migrated with generated options (DryRun, Verify, DeleteOld, Parallel) and compared record by record with what V1 loads; failed or dry-run migrations "
                       "must leave the legacy folder byte-identical and no partial .hyd; damaged chunks, a directory at the target path and unencodable keys are injected.",
-        "level_note": "Keys duplicated across chunk files (a genuine V1 artefact) accept any version V1 Load could return. No n-th-write I/O fault injection inside the migrator.",
+        "level_note": "Keys duplicated across chunk files (a genuine V1 artefact) accept any version V1 Load could return. A second unit (vfs shim) fails or shortens one or two "
+                      "of the migration's own file operations (one-shot faults drawn from a fault-free run of the same root) and requires every swamp's records to stay loadable "
+                      "from the legacy folder or from a complete .hyd, with truthful success/failure reporting. Faults in reads and in close() are not injected.",
         "assumptions": ["the harness drives V1 the way the swamp does (file-pointer callbacks)"],
     },
     "C14": {
